@@ -127,6 +127,7 @@ func handleScan(db *NoKV.DB, req *pb.ScanRequest) (*pb.ScanResponse, error) {
 	started := len(startKey) == 0
 
 	resp := &pb.ScanResponse{}
+	var lockedKeys [][]byte // locked keys in range, in key order
 	iter.Rewind()
 	reader := percolator.NewReader(db)
 	for iter.Valid() && len(resp.Kvs) < limit {
@@ -137,6 +138,16 @@ func handleScan(db *NoKV.DB, req *pb.ScanRequest) (*pb.ScanResponse, error) {
 		}
 		entry := item.Entry()
 		if entry == nil {
+			iter.Next()
+			continue
+		}
+		if entry.CF == kv.CFLock {
+			// the lock CF is iterated before the write CF; remember locked keys
+			// in range so that a locked key without any write record blocks the scan too.
+			lk := kv.SafeCopy(nil, entry.Key)
+			if cmp := bytes.Compare(lk, startKey); len(startKey) == 0 || cmp > 0 || (cmp == 0 && includeStart) {
+				lockedKeys = append(lockedKeys, lk)
+			}
 			iter.Next()
 			continue
 		}
@@ -152,6 +163,11 @@ func handleScan(db *NoKV.DB, req *pb.ScanRequest) (*pb.ScanResponse, error) {
 				continue
 			}
 			started = true
+		}
+		if blocked, err := firstBlocked(reader, &lockedKeys, key, readTs, resp); err != nil {
+			return nil, err
+		} else if blocked {
+			return resp, nil
 		}
 		lock, err := reader.GetLock(key)
 		if err != nil {
@@ -174,7 +190,30 @@ func handleScan(db *NoKV.DB, req *pb.ScanRequest) (*pb.ScanResponse, error) {
 			})
 		}
 	}
+	if resp.Error == nil && len(resp.Kvs) < limit {
+		if _, err := firstBlocked(reader, &lockedKeys, nil, readTs, resp); err != nil {
+			return nil, err
+		}
+	}
 	return resp, nil
+}
+
+// firstBlocked consumes remembered locked keys sorting before upTo
+// (nil: all) and reports the first one whose lock blocks a read at readTs.
+func firstBlocked(reader *percolator.Reader, keys *[][]byte, upTo []byte, readTs uint64, resp *pb.ScanResponse) (bool, error) {
+	for len(*keys) > 0 && (upTo == nil || bytes.Compare((*keys)[0], upTo) < 0) {
+		lk := (*keys)[0]
+		*keys = (*keys)[1:]
+		lock, err := reader.GetLock(lk)
+		if err != nil {
+			return false, err
+		}
+		if lock != nil && readTs >= lock.Ts {
+			resp.Error = lockedError(lk, lock)
+			return true, nil
+		}
+	}
+	return false, nil
 }
 
 func advanceToNextUserKey(iter utils.Iterator, current []byte) {
